@@ -1,13 +1,13 @@
-\* quick tier, the variant that creates the arena OUTSIDE the critical section: same invariants
+\* quick tier, leaked guards: 2 threads x 2 rounds, no pool-wide reset; a guard may be passed to mem::forget instead of being dropped
 SPECIFICATION Spec
 CONSTANTS
-    Threads = {t1, t2, t3}
-    MaxRounds = 1
+    Threads = {t1, t2}
+    MaxRounds = 2
     MaxChunks = 1
-    MaxPoolOps = 1
-    CreateUnderLock = FALSE
-    MayFail = TRUE
-    MayForget = FALSE
+    MaxPoolOps = 0
+    CreateUnderLock = TRUE
+    MayFail = FALSE
+    MayForget = TRUE
 SYMMETRY Symm
 INVARIANTS TypeOK MutexOK OwnerOK Exclusive IdleDisjoint Conservation ReuseOK ReuseTight DataIntact
 PROPERTIES DecideCreateOnlyWhenIdleEmpty BlocksOnlyForgottenByPoolOps ResetRewindsAll DropReleasesAll LeakedStayValid
